@@ -30,7 +30,7 @@ ASSUMPTIONS = [
     "tree (python sources, mime.types) are ignored",
     "a ValueError/UnicodeError for a name holding NUL or a non-UTF-8 byte counts as a refusal",
 ]
-MIN = {"quick": {"evaluations": 150000, "nontrivial": 100000, "outcomes": 6},
+MIN = {"quick": {"evaluations": 198000, "nontrivial": 185000, "outcomes": 7},
        "thorough": {"evaluations": 1500000, "nontrivial": 1000000, "outcomes": 6}}
 
 NAME_TOKENS = ["..", ".", "/", "a", "d", "root", "root-sib", "-sib", "\\", "\x00"]
